@@ -133,12 +133,16 @@ pub fn step_txring(t: &mut TxSt, args: &[&str]) -> String {
             }
             _ => "bad-op".into(),
         },
-        ["flush"] | ["shutdown"] => match t.writer.as_mut() {
+        // `flushb` / `shutdownb`: the same call polled by a second task (waker B)
+        ["flush"] | ["shutdown"] | ["flushb"] | ["shutdownb"] => match t.writer.as_mut() {
             Some(w) => {
-                let p = if args[0] == "flush" {
-                    Pin::new(w).poll_flush(&mut cx)
+                let wb: Waker = t.wb.clone().into();
+                let mut cxb = Context::from_waker(&wb);
+                let cxw = if args[0].ends_with('b') { &mut cxb } else { &mut cx };
+                let p = if args[0].starts_with("flush") {
+                    Pin::new(w).poll_flush(cxw)
                 } else {
-                    Pin::new(w).poll_shutdown(&mut cx)
+                    Pin::new(w).poll_shutdown(cxw)
                 };
                 let r = match p {
                     Poll::Ready(Ok(())) => "ok".to_string(),
